@@ -107,6 +107,8 @@ def r_matchvisitors(root):
                 okm = not (k == "ret" and isinstance(v, dict) and v.get(".kind") == "RegExMatch") or ((fl is None or (isinstance(fl, int) and bool(fl & re.MULTILINE))) and v.get(".multiline") in (None, True))
                 rep(("C22", "C01"), "C22.m", W2, "regex /%s/ with ignore_case %s keeps multi-line matching" % (pat, ic), okm, "the grammar regex /%s/ under ignore_case=%s is built with re_flags=%r multiline=%r; documented: Arpeggio's default flags (re.MULTILINE: ^ and $ match at line ends - a Comment rule /\\/\\/.*?$/ depends on it), whatever ignore_case is" % (pat, ic, fl, v.get(".multiline") if isinstance(v, dict) else None), witness="Comment: /\\/\\/.*?$/; with ignore_case=True and a comment that is not on the last line")
                 rep(("C20", "C01"), "C20.d", W2, "regex /%s/ with ignore_case %s" % (pat, ic), ok, "the grammar regex /%s/ under ignore_case=%s becomes %s; documented: a compiled RegExMatch of exactly that pattern with the meta-model's ignore_case" % (pat, ic, describe(k, v)))
+                k2, v2 = visit(vr, self_, dict(node, **{".position": 40}), ["/%s/" % pat])
+                rep(("C19", "C01", "C06"), "C19.e", W2, "two occurrences of /%s/ are two expressions" % pat, k2 == "ret" and isinstance(v2, dict) and v2 is not v, "the regex /%s/ written twice in a grammar %s; documented: each occurrence is its own RegExMatch (the suppression flag '-', the rule name and the memoization table belong to one occurrence)" % (pat, "gives the same RegExMatch object twice" if v2 is v else describe(k2, v2)), witness="A: x=/%s/ /%s/-;" % (pat, pat))
             else:
                 ok = k == "raise" and v.cls == "TextXSyntaxError"
                 rep(("C23",), "C23.b", W2, "invalid regex /%s/" % pat, ok, "the invalid grammar regex /%s/ %s; documented: a TextXSyntaxError located at the regex (never a bare re.error, never acceptance)" % (pat, describe(k, v)), witness="Rule: /%s/;" % pat)
